@@ -266,7 +266,25 @@ func (r *caseRun) buildCollection(name string) *nject.Collection {
 		items = append(items, annotate(p, r.rawProvider(p)))
 		i++
 	}
-	c := nject.Sequence(name, items...)
+	// The same list is put together by different routes (C13 says they are equivalent): flat, nested, or appended to a
+	// base collection from which a second, unrelated collection is appended as well (aliasing of the base's slice).
+	var c *nject.Collection
+	route := uint64(r.c.Seed) % 5
+	k := 0
+	if len(items) > 0 {
+		k = int((uint64(r.c.Seed) / 5) % uint64(len(items)+1))
+	}
+	switch route {
+	case 3:
+		c = nject.Sequence(name, append([]any{nject.Sequence(name, items[:k]...)}, items[k:]...)...)
+	case 4:
+		base := nject.Sequence(name, items[:k]...)
+		c = base.Append(name, items[k:]...)
+		other := base.Append(name, func(T0) T7 { return T7{} }, func(T7) {})
+		_ = other.String()
+	default:
+		c = nject.Sequence(name, items...)
+	}
 	ids := nject.VerifIDs(c)
 	r.idOf = make(map[int32]int)
 	if len(ids) == len(ps) {
